@@ -74,6 +74,12 @@ func c20Scenarios(tier string) []*Scenario {
 			}
 		}
 	}
+	// single-response stream kind: the client's one receive must not drain what a misbehaving handler keeps sending
+	for n := 2; n <= maxN+1; n++ {
+		for _, c := range [][]string{{"S0", "C"}, {"S0", "C", "R"}, {"S0", "C", "H", "R"}} {
+			add("s2c-stall", "", RPC{Kind: "cs", Client: c, Handler: cat([]string{"r*"}, sends("s", n), []string{"ret:ok"})})
+		}
+	}
 	// Header() consumes a frame too
 	add("s2c-header-peek", "", RPC{Kind: "bd", Client: []string{"S0", "C", "H"}, Handler: []string{"r", "s0", "s1", "s2", "ret:ok"}})
 	add("s2c-header-peek", "", RPC{Kind: "bd", Client: []string{"S0", "C", "H"}, Handler: []string{"r", "h:a", "s0", "s1", "s2", "ret:ok"}})
@@ -131,7 +137,19 @@ func c20Oracle(sc *Scenario, rec *Rec, s *mc.Sched) []mc.Violation {
 			out = append(out, mc.Violation{Clause: "sender-not-blocked", Obs: fmt.Sprintf("n=%d k=%d", n, k)})
 		}
 	case "s2c-stall":
-		n, k := count(rpc.Handler, 's'), countOp(rpc.Client, "R")
+		n, k := count(rpc.Handler, 's'), countOp(rpc.Client, "R")+countOp(rpc.Client, "H")
+		if rpc.Kind == "cs" {
+			// a single-response receive takes its message (possibly the one Header() peeked)
+			// plus the one frame it probes to make sure no second response follows
+			switch {
+			case countOp(rpc.Client, "R") > 0:
+				k = 2
+			case countOp(rpc.Client, "H") > 0:
+				k = 1
+			default:
+				k = 0
+			}
+		}
 		want := n
 		if k+1 < n {
 			want = k + 1
